@@ -7,8 +7,8 @@ import Thanos.Model.ReadPath
   One request per line, one answer per line; every line is self-contained.
 
   dd.run <f> <replicas> <calls>          (C01, C02)
-     f        = PromQL function name of the select hints, `none` for the empty string
-                (increase | rate | irate | resets  ⇒ counter adjustment)
+     f        = function name of the select hints (any name), `none` for the empty string
+                (`isCounter f`, i.e. increase | rate | irate | resets  ⇒ counter adjustment)
      replicas = r;r;…      r = e (no samples) | t:v,t:v,…     (integers)
      calls    = c,c,…      c = n (Next) | s<t> (Seek t) | d (Next until ValNone)
      answer   = o,o,…      o = t:v (At() after a successful call) | x (ValNone) | panic (trace ends)
@@ -65,8 +65,6 @@ def parseCall (s : String) : Option DCall :=
   else match s.toList with
     | 's' :: rest => (parseInt? (String.ofList rest)).map fun t => .call (.seek t)
     | _ => none
-
-def isCounterFn (f : String) : Bool := f = "increase" || f = "rate" || f = "irate" || f = "resets"
 
 def showObs : Obs → String
   | .sample s => s!"{s.t}:{s.v}"
@@ -203,7 +201,7 @@ def handle : List String → String
   | ["dd.run", f, reps, calls] =>
     match parseReplicas reps, (listOf ',' calls).mapM parseCall with
     | some (r :: rs), some cs =>
-      let it := mk seekFixed (isCounterFn f) r rs
+      let it := mkF seekFixed (if f = "none" then "" else f) r rs
       joinWith "," ((runD it.ops cs it.st).map showObs)
     | _, _ => "bad-op"
   | ["cm.merge", series] =>
